@@ -288,6 +288,44 @@ func runC13(c *mon.Ctx) {
 					c.Failf("verify:rejects-content-type-params", "Content-Type with a charset parameter is refused (code %d)", code)
 				}
 			}
+			// the origin signs with two of its keys (HTTPRequest then sends one X-Matrix line per key) and the receiver can
+			// obtain only one of them: accepted, whichever line comes first on the wire
+			if tr.Chance(0.35) {
+				id2 := gen.NewIdentity(kr, origin, "ed25519:second")
+				fr2 := fclient.NewFederationRequest(method, spec.ServerName(origin), spec.ServerName(dest), uri)
+				if body != nil {
+					_ = fr2.SetContent(spec.RawJSON(gen.Plain().Bytes(body)))
+				}
+				e1 := fr2.Sign(spec.ServerName(origin), gmsl.KeyID(keyID), id.Priv)
+				e2 := fr2.Sign(spec.ServerName(origin), "ed25519:second", id2.Priv)
+				if hr2, err := fr2.HTTPRequest(); e1 == nil && e2 == nil && err == nil {
+					lines := hr2.Header.Values("Authorization")
+					if len(lines) != 2 {
+						c.Failf("sign:two-keys:header-lines", "a request signed with two keys is sent with %d Authorization lines: %q", len(lines), lines)
+					} else {
+						for _, known := range []string{keyID, "ed25519:second"} {
+							db2 := newMemKeyDB()
+							if known == keyID {
+								db2.set(origin, keyID, id.Pub, nowMs+24*3600*1000, 0)
+							} else {
+								db2.set(origin, "ed25519:second", id2.Pub, nowMs+24*3600*1000, 0)
+							}
+							for _, order := range [][2]int{{0, 1}, {1, 0}} {
+								w := base.clone()
+								w.delHeader("Authorization")
+								w.headers = append(w.headers, [2]string{"Authorization", lines[order[0]]}, [2]string{"Authorization", lines[order[1]]})
+								c.Count("verified_two_key_requests")
+								g, code, _ := verify(w, &gmsl.KeyRing{KeyDatabase: db2})
+								if g == nil || code != 200 {
+									c.Failf("verify:rejects-genuine:two-keys-one-known", "a request signed with two keys of its origin, of which the receiver knows %s, is refused (code %d) with the lines in this order: %q, %q", known, code, lines[order[0]], lines[order[1]])
+								} else if g.Method() != strings.ToUpper(method) || g.RequestURI() != uri || string(g.Origin()) != origin || string(g.Destination()) != dest {
+									c.Failf("verify:reports-other-fields", "accepted two-key request reports method=%q uri=%q origin=%q dest=%q", g.Method(), g.RequestURI(), g.Origin(), g.Destination())
+								}
+							}
+						}
+					}
+				}
+			}
 			// soundness: tamperings
 			tampers := map[string]func(w *wireReq) bool{
 				"method": func(w *wireReq) bool {
